@@ -196,6 +196,18 @@ memTypes:
 						for cur := e.schema.People.IterateIds(tx, q2); cur.IsValid(); cur.Next() {
 						}
 					}
+					// the same query served from a caller-supplied cursor over a tree set (either direction is requested
+					// by the scanner depending on the sort clause)
+					if q3, err := ast.Parse(e.schema.People, text); err == nil {
+						_, _, _ = e.schema.People.QueryWithCursorC(tx, func(tx *bbolt.Tx, forward bool) ast.SetCursor {
+							set := ast.NewTreeSet(forward)
+							for _, p := range e.data[di].People {
+								set.Add([]byte(p.ID))
+							}
+							set.Add([]byte("zz-not-stored"))
+							return set.ToCursor()
+						}, q3)
+					}
 				}
 				return nil
 			})
@@ -497,7 +509,8 @@ func exhaustiveC10(maxLen int) func(yield func(c c10Case) bool) {
 		}
 		// paging matrix: every predicate x sort x skip x limit boundary combination is evaluated over every dataset
 		for _, pred := range []string{"true", "false", `sa = "a"`, "ia > 1", "sa = null", "isEmpty(roles)", `anyOf(roles) = "a"`} {
-			for _, srt := range []string{"", "sort by sa", "sort by sa desc", "sort by ia, sa desc", "sort by ba, fa, ta", "sort by id desc"} {
+			for _, srt := range []string{"", "sort by sa", "sort by sa desc", "sort by ia, sa desc", "sort by ba, fa, ta", "sort by id desc",
+				"sort by sa, sb, ia, ib, fa, ba", "sort by sb desc, sa, ia, ib desc, fa, ba, ta, id", "sort by id, sa, sb, ia, ib, fa, ba"} {
 				for _, skip := range []string{"", "skip 0", "skip 1", "skip -1", "skip 100", "skip 9223372036854775807"} {
 					for _, limit := range []string{"", "limit none", "limit 0", "limit 1", "limit -1", "limit 9223372036854775807"} {
 						text := strings.Join(strings.Fields(pred+" "+srt+" "+skip+" "+limit), " ")
